@@ -13,6 +13,11 @@ NPROC = os.cpu_count() or 4
 
 CFLAGS = ["-g", "-O1", "-fsanitize=address,undefined", "-fno-sanitize-recover=all",
           "-fno-omit-frame-pointer", "-DMPT_VERIF", "-fPIC", "-w"]
+# coverage audit (lib/coverage_audit.sh): VERIF_COV=1 builds everything with gcov instrumentation into separate
+# build directories; never used by a registered check
+COV = bool(os.environ.get("VERIF_COV"))
+if COV:
+    CFLAGS = CFLAGS + ["--coverage", "-DVERIF_COV"]
 ASAN_ENV = {"ASAN_OPTIONS": "detect_leaks=0:abort_on_error=1:allocator_may_return_null=1",
             "UBSAN_OPTIONS": "halt_on_error=1:abort_on_error=1:print_stacktrace=0"}
 ASAN_LEAK_ENV = {"ASAN_OPTIONS": "detect_leaks=1:abort_on_error=1:allocator_may_return_null=1",
@@ -73,7 +78,7 @@ def tree_hash():
 
 
 def build_dir():
-    d = os.path.join(OUT, "build", tree_hash())
+    d = os.path.join(OUT, "build", tree_hash() + ("_cov" if COV else ""))
     os.makedirs(d, exist_ok=True)
     # keep at most 3 cached trees
     root = os.path.join(OUT, "build")
@@ -145,7 +150,8 @@ def _build_lib(name):
     if rc:
         raise BuildError("ar failed: " + o)
     os.rename(tmp, lib)
-    shutil.rmtree(od, ignore_errors=True)
+    if not COV:      # the coverage audit needs the .gcno files next to where the .gcda files are written
+        shutil.rmtree(od, ignore_errors=True)
     log("[build] lib%s.a from working tree in %.1fs" % (name, time.time() - t0))
     return lib
 
